@@ -540,6 +540,7 @@ fn plan_for(prop: &str) -> Plan {
         "C20" => Plan { profiles: vec![(Replication, 7), (Mixed, 3)], quick: 16_000, thorough: 500_000, fair: true, triggers: vec!["messages_with_reset"], rule: "E1 part: every processed SYN-ACK / ACK of seeded hostile traces; distinct = hash of (delivery order, abstract states); non-trivial = trace with at least one reset" },
         "C12" => Plan { profiles: vec![(Membership, 7), (Mixed, 2), (Watch, 1)], quick: 16_000, thorough: 500_000, fair: true, triggers: vec!["members_removed", "evaluations_with_dead_members"], rule: "trace = membership-focused hostile prefix (short dead-node grace, crashes, restarts, partitions, clock advances at 1/2 and 1 x grace -/+ 1 ms) + fair phase; distinct = hash of (delivery order, abstract states incl. live/dead/scheduled set sizes)" },
         "C13" => Plan { profiles: vec![(Watch, 6), (Membership, 4)], quick: 16_000, thorough: 500_000, fair: true, triggers: vec!["watch_values_checked"], rule: "trace = membership-focused prefix with and without the READY predicate, predicate flips by writes / TTL / deletes / crashes; every evaluation is checked; distinct = hash of (delivery order, abstract states)" },
+        "C06" => Plan { profiles: vec![(Replication, 5), (Membership, 3), (Mixed, 2)], quick: 6_000, thorough: 300_000, fair: true, triggers: vec!["gc_passes_that_collected"], rule: "" },
         "C07" => Plan { profiles: vec![(Membership, 4), (Mixed, 4), (Replication, 2)], quick: 4_000, thorough: 200_000, fair: true, triggers: vec!["datagrams_emitted"], rule: "" },
         "C11" => Plan { profiles: vec![(Membership, 5), (Mixed, 3), (Replication, 2)], quick: 6_000, thorough: 300_000, fair: true, triggers: vec!["evaluations"], rule: "" },
         "C14" => Plan { profiles: vec![(Replication, 7), (Membership, 2), (Mixed, 1)], quick: 3_000, thorough: 200_000, fair: true, triggers: vec!["c14_node_deltas_checked"], rule: "" },
